@@ -106,9 +106,19 @@ def rule2(ctx, fl):
     ctx.floor('C08.2', 7)
 
 
+def rule_init_complete(ctx, fl):
+    ctx.doc('C08.4', 'initialiser completeness: every field of the uncondition variable that myth_uncond_wait_body / myth_uncond_signal_body read(s), directly or through an inlined helper, '
+            'is written by myth_uncond_init_body (an object placed in recycled memory must not depend on its previous contents)')
+    vi = ctx.view(NATIVE, roots=['myth_uncond_init_body', 'myth_uncond_wait_body', 'myth_uncond_signal_body'], stops=('myth_queue_push', 'myth_queue_pop', 'myth_yield_ex_body', 'hr_gettime', 'fprintf', 'exit') + lib.SPIN_STOPS, flavour=fl)
+    n = lib.init_covers(ctx, 'C08.4', vi, 'myth_uncond_init_body', ['myth_uncond_wait_body', 'myth_uncond_signal_body'], 'uncondition variable')
+    ctx.ob('C08.4', 'fields read by the operations enumerated', n >= 1, 'read set of the operations', loc='src/myth_sync_func.h', detail=str(n))
+    ctx.floor('C08.4', 3)
+
+
 def run(ctx):
     for fl in flavours(ctx):
         ctx.unit = fl
+        rule_init_complete(ctx, fl)
         rule1(ctx, fl)
         rule2(ctx, fl)
         from . import c03
@@ -117,6 +127,8 @@ def run(ctx):
 
 SYNC = 'src/myth_sync_func.h'
 MUTANTS = [
+    {'name': 'uncond_init forgets the waiter slot', 'expect': 'C08.4',
+     'edits': [(SYNC, 'static inline int myth_uncond_init_body(myth_uncond_t * u) {\n  u->th = 0;\n  return 0;', 'static inline int myth_uncond_init_body(myth_uncond_t * u) {\n  (void)u;\n  return 0;')]},
     {'name': 'waiter publishes itself before switching', 'expect': 'C08.1',
      'edits': [(SYNC, "  myth_swap_context_withcall(&cur->context, next_ctx,\n\t\t\t     myth_uncond_wait_cb, u, cur, 0);", "  u->th = cur;\n  myth_swap_context_withcall(&cur->context, next_ctx,\n\t\t\t     myth_uncond_wait_cb, u, cur, 0);")]},
     {'name': 'signal pushes before clearing the slot', 'expect': 'C08.2',
